@@ -21,7 +21,7 @@ RULE = (
     "blank e Arabic-Indic-3; text/code types: A Y N z 1 blank _ = SOH e-acute), the empty string, every "
     "single-character substitution (15-symbol alphabet) / deletion / insertion at every position of valid "
     "templates of the fixed-layout types plus field-boundary values, Hypothesis members and one-edit near "
-    "misses of longer values, each also offered to one field of every other datatype; a pool of templates, boundary values and "
+    "misses of longer values, every third one also offered to one field of every other datatype; a pool of templates, boundary values and "
     "members of all types offered to the fields of every datatype in one process in three orders (the verdict must not depend on "
     "what was validated before); for EVERY enumerated field of both dictionaries every enumerator and near "
     "misses (case flip, blank padding, prefix, concatenation). Three-valued oracle from FIX 4.4 Vol.1 data "
@@ -328,12 +328,16 @@ def hyp_shard(acc, n, seed):
         reps.setdefault(f.ftype.upper(), []).append((origin, f))
     types = sorted(t for t in reps if t in NUMERIC | TEXTUAL | LAYOUT)
     j = Judge(acc)
+    cnt = [0]
 
     def one(x):
         t, s = x
         for origin, f in reps[t]:
             j.one(f, t, s, "generated")
-        # ... and to one field of every other datatype (a member of one lexical space is a near-miss of its neighbours)
+        # ... and (every third value) to one field of every other datatype: a member of one lexical space is a near-miss of its neighbours
+        cnt[0] += 1
+        if cnt[0] % 3:
+            return
         for t2 in types:
             if t2 != t:
                 origin, f = reps[t2][0]
